@@ -14,6 +14,8 @@ PROFILES = {
     "one": ('{"v1"}', "K1", "P1", "O1a", [dict(id="v1", kind="vrx", parent="none", origin="n1")]),
     "two": ('{"v1","t1"}', "K2", "P2", "O2b", [dict(id="v1", kind="vrx", parent="none", origin="n1"),
                                                dict(id="t1", kind="trx", parent="none", origin="n2")]),
+    "two4": ('{"v1","t1"}', "K2", "P2", "O2c", [dict(id="v1", kind="vrx", parent="none", origin="n1"),
+                                                dict(id="t1", kind="trx", parent="none", origin="n4")]),
     "chain": ('{"v1","v2"}', "KC", "PC", "OCa", [dict(id="v1", kind="vrx", parent="none", origin="n1"),
                                                  dict(id="v2", kind="vrx", parent="v1", origin="n1")]),
 }
@@ -123,6 +125,17 @@ def directed(prop):
                         ops=[{"op": "originate", "i": "v1"}, {"op": "receive", "f": "n1", "t": "n2", "i": "v1"},
                              {"op": "receive", "f": "n1", "t": "n2", "i": "v1"}]))
     else:
+        # an honest signature lifted from ANOTHER item: n1 signs v1; the adversary n3 replays that entry in the list of
+        # t1 (originated at n4) towards n2, whose only honest way to n1 ... is n2 itself: n1 must still get t1
+        net4 = {"n1": ["n2", "n3"], "n2": ["n1", "n3", "n4"], "n3": ["n1", "n2", "n4"], "n4": ["n2", "n3"]}
+        two4 = PROFILES["two4"][4]
+        for menu in (3, 5, 6):
+            out.append(dict(nodes=NODES[4], peers=net4, bad=["n3"], items=two4, drain=True, profile="two4",
+                            ops=[{"op": "originate", "i": "v1"}, {"op": "receive", "f": "n1", "t": "n2", "i": "v1"},
+                                 {"op": "receive", "f": "n1", "t": "n3", "i": "v1"}, {"op": "receive", "f": "n2", "t": "n3", "i": "v1"},
+                                 {"op": "originate", "i": "t1"}, {"op": "receive", "f": "n4", "t": "n3", "i": "t1"},
+                                 {"op": "forge", "b": "n3", "t": "n2", "i": "t1", "v": "n1", "menu": menu},
+                                 {"op": "receive", "f": "n3", "t": "n2", "i": "t1"}]))
         for menu in range(1, 7):
             out.append(dict(nodes=NODES[3], peers=tri, bad=["n3"], items=one, drain=True, profile="one",
                             ops=[{"op": "originate", "i": "v1"}, {"op": "receive", "f": "n1", "t": "n3", "i": "v1"},
